@@ -14,6 +14,9 @@ COMMON_RULES = [
     (r"4util7node_eq", 34),
     (r"ref_codec.*3raw", 66),   # reference encoder raw copy (hash 32 / signature 64)
     (r"any_bytes_upto4", 6),
+    (r"baseline11update_slow", 70),      # crc32fast tail loop (< 64 bytes)
+    (r"baseline14update_fast_16", 12),   # crc32fast 64-byte blocks (payloads < 700 bytes)
+    (r"ref_codec13crc32_bitwise", 520),
 ]
 
 STUBS = ["std::fmt::format -> String::new() (error messages are never the subject)"]
@@ -130,10 +133,12 @@ C08 = dict(
         "c08_fixed_set_range": H("quick", "two windowed set_range calls then get(j)", _win + " (twice); value: bool; j: any index of the page", "windows", rules=_BF_RULES, unwind=6, extra=UF),
         "c08_fixed_index_of": H("quick", "index_of(true/false) near a range, None at the page end", "range: window, 1<=len<=40; positions up to 30 bits before / anywhere inside", "scan distance <= 70 bits", rules=_BF_RULES, timeout=900, unwind=6, extra=UF),
         "c08_fixed_last_index_of": H("quick", "last_index_of(true/false) near a range, None at index 0", "range: window, 1<=len<=40; positions up to 30 bits after / anywhere inside", "scan distance <= 70 bits", rules=_BF_RULES, timeout=900, unwind=6, extra=UF),
-        "c08_dyn_set_range_pages": H("quick", "DynamicBitfield set_range straddling 32767/32768 or 65535/65536 then get(j)", "range within +-64 of a page edge, len<=96; j < 4 pages; far index >= 4 pages", "window", rules=_BF_RULES, timeout=900, unwind=6, extra=UF),
-        "c08_dyn_drop_across_pages": H("quick", "drop of a range straddling a page edge out of a held range", "drop start within [-40,+8] of the edge, 1<=len<=48; j < 4 pages", "window", rules=_BF_RULES, timeout=900, unwind=6, extra=UF),
-        "c08_dyn_index_of_sparse": H("quick", "index_of/last_index_of(true) across a missing page", "bit a in last 20 of page 0, bit c in first 20 of page 2, query positions symbolic", "20-bit windows", rules=_BF_RULES, timeout=900, unwind=6, extra=UF),
-        "c08_dyn_flush_layout": H("quick", "flush: one StoreInfo per dirty page at 4096*page, LE words", "range within +-64 of a page edge; info n, bit k symbolic", "window", rules=_BF_RULES, timeout=900, unwind=6, extra=UF),
+        "c08_dyn_set_range_edge1": H("quick", "DynamicBitfield set_range (start 32768-40) then get(j)", "length 1..96 symbolic; j < 4 pages; far index >= 4 pages", "start concrete per instance", rules=_BF_RULES, timeout=900, unwind=6, extra=UF),
+        "c08_dyn_set_range_edge2": H("quick", "DynamicBitfield set_range (start 65535) then get(j)", "length 1..96 symbolic; j < 4 pages; far index >= 4 pages", "start concrete per instance", rules=_BF_RULES, timeout=900, unwind=6, extra=UF),
+        "c08_dyn_set_range_pagestart": H("quick", "DynamicBitfield set_range (start 32768) then get(j)", "length 1..96 symbolic; j < 4 pages; far index >= 4 pages", "start concrete per instance", rules=_BF_RULES, timeout=900, unwind=6, extra=UF),
+        "c08_dyn_drop_across_pages": H("quick", "drop of a range straddling the page edge out of a held range", "drop length 1..96 symbolic from 32768-30; j < 4 pages", "starts concrete", rules=_BF_RULES, timeout=900, unwind=6, extra=UF),
+        "c08_dyn_index_of_sparse": H("quick", "index_of/last_index_of(true) across a missing page", "bits at 32761 and 65541 (concrete); query positions symbolic within 20 bits", "20-bit windows", rules=_BF_RULES, timeout=900, unwind=6, extra=UF),
+        "c08_dyn_flush_layout": H("quick", "flush: one StoreInfo per dirty page at 4096*page, LE words", "range from 32768-50, length 1..96 symbolic; info n, bit k symbolic", "start concrete", rules=_BF_RULES, timeout=900, unwind=6, extra=UF),
         "c08_dyn_open_one_page_first": H("quick", "open: has(j) == bit j of the file; 4096-byte file, byte 0 symbolic", "x: the byte value; j: any index < 4 pages", "file zero elsewhere; byte offset concrete per instance", rules=_BF_RULES, timeout=900, unwind=5, extra=FS9000),
         "c08_dyn_open_one_page_last": H("thorough", "open: has(j) == bit j of the file; 4096-byte file, byte 4095 symbolic", "x: the byte value; j: any index < 4 pages", "file zero elsewhere; byte offset concrete per instance", rules=_BF_RULES, timeout=900, unwind=5, extra=FS9000),
         "c08_dyn_open_two_pages_p0": H("thorough", "open: has(j) == bit j of the file; 8192-byte file (core > 32768 blocks), byte 1027 symbolic", "x: the byte value; j: any index < 4 pages", "file zero elsewhere; byte offset concrete per instance", rules=_BF_RULES, timeout=900, unwind=5, extra=FS9000),
@@ -145,3 +150,17 @@ C08 = dict(
     },
 )
 PROPS["C08"] = C08
+
+# --------------------------------------------------------------------------------------------- C06
+C06 = dict(
+    title="Storage files are readable and writable per the JavaScript on-disk layout",
+    variant="model",
+    patterns=["c06_"],
+    functions=["hypercore::oplog::{encode_with_leader,write_leader_parts,build_len_and_info_header,Oplog::validate_leader}", "crc32fast::hash / Hasher (real dependency code, baseline path)"],
+    oracle="reference layout encoders in harness/c_oplog.rs (ref_header, ref_entry, ref_leader) and bitwise CRC-32 in harness/ref_codec.rs",
+    outside=["golden SHA-256 file hashes of the five-step JS interop scenario (one concrete run with real BLAKE2b/Ed25519: nothing symbolic; real crypto out of reach)"],
+    harnesses={
+        "c06_leader_entry": H("quick", "leader (crc, len<<2|partial<<1|header_bit) of an entry vs reference; validate_leader reads it back", "clear entry: drop bit, start < 253, length < 253 (3 symbolic payload bytes), partial bit, header bit", "4 payload bytes (CRC equivalence over many symbolic bytes is XOR-hard for SAT)", timeout=900, rules=[(r"crc32_bitwise", 30), (r"update_slow", 30)]),
+    },
+)
+PROPS["C06"] = C06
